@@ -172,6 +172,10 @@ pub trait Prop: Sync {
     fn cross_check(&self, _opts: &Options, _runs: u64, _digests: &[(u64, u64)], _counters: &mut BTreeMap<String, u64>) -> Result<Option<(u64, String, String)>, String> {
         Ok(None)
     }
+    /// true if cross_check needs the per-run digests of the batch
+    fn wants_digests(&self) -> bool {
+        false
+    }
     /// Fixed regression inputs: one per known finding / repaired defect, executed before the batch.
     fn regressions(&self) -> Vec<(String, Self::Case)> {
         Vec::new()
@@ -320,6 +324,106 @@ struct Collected {
     harness_error: Option<String>,
 }
 
+/// Incremental aggregate of a batch (results are folded as they arrive: a thorough tier runs
+/// millions of indices).
+#[derive(Default)]
+struct Agg {
+    evaluations: u64,
+    counters: BTreeMap<String, u64>,
+    maxima: BTreeMap<String, u64>,
+    sets: BTreeMap<String, BTreeSet<u64>>,
+    known: BTreeMap<String, u64>,
+    fps: HashSet<u64>,
+    sim_ops: u64,
+    sim_bytes: u64,
+    /// samples of the lowest run indices
+    samples: Vec<(u64, Value)>,
+    digests: Vec<(u64, u64)>,
+    keep_digests: bool,
+    violating: Vec<Collected>,
+    violating_dropped: u64,
+    class_counts: BTreeMap<String, u64>,
+    harness_errors: Vec<(u64, String)>,
+}
+
+impl Agg {
+    fn absorb(&mut self, c: Collected) {
+        if let Some(e) = &c.harness_error {
+            if self.harness_errors.len() < 10 {
+                self.harness_errors.push((c.index, e.clone()));
+            }
+        }
+        self.evaluations += c.stats.evaluations.max(1);
+        for (k, v) in &c.stats.counters {
+            *self.counters.entry(k.clone()).or_insert(0) += v;
+        }
+        for (k, v) in &c.stats.maxima {
+            let e = self.maxima.entry(k.clone()).or_insert(0);
+            if *v > *e {
+                *e = *v;
+            }
+        }
+        self.fps.extend(c.stats.fingerprints.iter().copied());
+        for (k, v) in &c.stats.known {
+            *self.known.entry(k.clone()).or_insert(0) += v;
+        }
+        for (k, v) in &c.stats.sets {
+            self.sets.entry(k.clone()).or_default().extend(v.iter().copied());
+        }
+        self.sim_ops += c.stats.sim_ops;
+        self.sim_bytes += c.stats.sim_bytes;
+        if let Some(s) = &c.stats.sample {
+            if self.samples.len() < 3 || self.samples.iter().any(|(i, _)| *i > c.index) {
+                self.samples.push((c.index, s.clone()));
+                self.samples.sort_by_key(|(i, _)| *i);
+                self.samples.truncate(3);
+            }
+        }
+        if self.keep_digests {
+            self.digests.push((c.index, c.stats.digest));
+        }
+        if let Some((v, _)) = &c.violation {
+            *self.class_counts.entry(v.class.clone()).or_insert(0) += 1;
+            if self.violating.len() < 2000 {
+                self.violating.push(Collected { index: c.index, stats: RunStats::default(), violation: c.violation, harness_error: None });
+            } else {
+                self.violating_dropped += 1;
+            }
+        }
+    }
+    fn merge(&mut self, o: Agg) {
+        self.evaluations += o.evaluations;
+        for (k, v) in o.counters {
+            *self.counters.entry(k).or_insert(0) += v;
+        }
+        for (k, v) in o.maxima {
+            let e = self.maxima.entry(k).or_insert(0);
+            if v > *e {
+                *e = v;
+            }
+        }
+        for (k, v) in o.sets {
+            self.sets.entry(k).or_default().extend(v);
+        }
+        for (k, v) in o.known {
+            *self.known.entry(k).or_insert(0) += v;
+        }
+        self.fps.extend(o.fps);
+        self.sim_ops += o.sim_ops;
+        self.sim_bytes += o.sim_bytes;
+        self.samples.extend(o.samples);
+        self.samples.sort_by_key(|(i, _)| *i);
+        self.samples.truncate(3);
+        self.digests.extend(o.digests);
+        for (k, v) in o.class_counts {
+            *self.class_counts.entry(k).or_insert(0) += v;
+        }
+        self.violating.extend(o.violating);
+        self.violating_dropped += o.violating_dropped;
+        self.harness_errors.extend(o.harness_errors);
+    }
+}
+
 fn known_ids(verif_dir: &Path, prop: &str) -> Result<Vec<(String, String)>, String> {
     let path = verif_dir.join("known_findings.json");
     let text = match std::fs::read_to_string(&path) {
@@ -426,10 +530,10 @@ fn run_children<P: Prop>(
     base: u64,
     total: u64,
     deadline: Option<Instant>,
-) -> (Vec<Collected>, u64) {
+) -> (Agg, u64) {
     let total = base + total;
     let next = AtomicU64::new(base);
-    let results: Mutex<Vec<Collected>> = Mutex::new(Vec::new());
+    let results: Mutex<Agg> = Mutex::new(Agg { keep_digests: opts.digests_out.is_some() || p.wants_digests(), ..Default::default() });
     let exe = std::env::current_exe().expect("current exe");
     let stop = AtomicBool::new(false);
     std::thread::scope(|s| {
@@ -470,7 +574,7 @@ fn run_children<P: Prop>(
                     {
                         Ok(c) => c,
                         Err(e) => {
-                            results.lock().unwrap().push(Collected {
+                            results.lock().unwrap().absorb(Collected {
                                 index: cur,
                                 stats: RunStats::default(),
                                 violation: None,
@@ -508,7 +612,7 @@ fn run_children<P: Prop>(
                                         Ok(cl) => {
                                             cur = cl.i + 1;
                                             in_flight = None;
-                                            results.lock().unwrap().push(Collected {
+                                            results.lock().unwrap().absorb(Collected {
                                                 index: cl.i,
                                                 stats: cl.stats,
                                                 violation: cl.violation.map(|v| (v, cl.narrowed)),
@@ -516,7 +620,7 @@ fn run_children<P: Prop>(
                                             });
                                         }
                                         Err(e) => {
-                                            results.lock().unwrap().push(Collected {
+                                            results.lock().unwrap().absorb(Collected {
                                                 index: cur,
                                                 stats: RunStats::default(),
                                                 violation: None,
@@ -553,7 +657,7 @@ fn run_children<P: Prop>(
                                 format!("child process died during run {i}: {status:?}"),
                             )
                         };
-                        results.lock().unwrap().push(Collected {
+                        results.lock().unwrap().absorb(Collected {
                             index: i,
                             stats: RunStats {
                                 evaluations: 1,
@@ -568,7 +672,7 @@ fn run_children<P: Prop>(
                         if status.map(|s| s.success()).unwrap_or(false) {
                             break;
                         }
-                        results.lock().unwrap().push(Collected {
+                        results.lock().unwrap().absorb(Collected {
                             index: cur,
                             stats: RunStats::default(),
                             violation: None,
@@ -584,18 +688,14 @@ fn run_children<P: Prop>(
     (results.into_inner().unwrap(), done)
 }
 
-fn run_threads<P: Prop>(
-    p: &P,
-    opts: &Options,
-    total: u64,
-    deadline: Option<Instant>,
-) -> (Vec<Collected>, u64) {
+fn run_threads<P: Prop>(p: &P, opts: &Options, total: u64, deadline: Option<Instant>) -> (Agg, u64) {
     let next = AtomicU64::new(0);
-    let results: Mutex<Vec<Collected>> = Mutex::new(Vec::new());
+    let keep = opts.digests_out.is_some() || p.wants_digests();
+    let results: Mutex<Agg> = Mutex::new(Agg { keep_digests: keep, ..Default::default() });
     std::thread::scope(|s| {
         for _ in 0..opts.workers {
             s.spawn(|| {
-                let mut local = Vec::new();
+                let mut local = Agg { keep_digests: keep, ..Default::default() };
                 loop {
                     if let Some(d) = deadline {
                         if Instant::now() >= d {
@@ -606,9 +706,9 @@ fn run_threads<P: Prop>(
                     if i >= total {
                         break;
                     }
-                    local.push(run_index(p, opts, i));
+                    local.absorb(run_index(p, opts, i));
                 }
-                results.lock().unwrap().extend(local);
+                results.lock().unwrap().merge(local);
             });
         }
     });
@@ -777,28 +877,23 @@ pub fn batch_main<P: Prop>(p: &P, opts: &Options) -> i32 {
     // 1. regression inputs for known findings and repaired defects
     let mut regression_count = 0u64;
     let regs = p.regressions();
-    let isolated: Vec<Collected> = if p.plan(opts.tier).isolation == Isolation::Children && !regs.is_empty() {
-        let (mut v, _) = run_children(p, opts, REGRESSION_BASE, regs.len() as u64, None);
-        v.sort_by_key(|c| c.index);
-        v
+    let (isolated, isolated_errors): (Vec<Collected>, Vec<(u64, String)>) = if p.plan(opts.tier).isolation == Isolation::Children && !regs.is_empty() {
+        let (a, _) = run_children(p, opts, REGRESSION_BASE, regs.len() as u64, None);
+        (a.violating, a.harness_errors)
     } else {
-        Vec::new()
+        (Vec::new(), Vec::new())
     };
     for (ri, (label, case)) in regs.into_iter().enumerate() {
         regression_count += 1;
         let mut st = RunStats::default();
         let result = if p.plan(opts.tier).isolation == Isolation::Children {
-            match isolated.iter().find(|c| c.index == REGRESSION_BASE + ri as u64) {
-                Some(c) => {
-                    if let Some(e) = &c.harness_error {
-                        RunResult::HarnessError(e.clone())
-                    } else if let Some((v, n)) = &c.violation {
-                        RunResult::Violation(v.clone(), n.as_ref().and_then(|x| serde_json::from_value(x.clone()).ok()))
-                    } else {
-                        RunResult::Held
-                    }
+            if let Some((_, e)) = isolated_errors.iter().find(|(i, _)| *i == REGRESSION_BASE + ri as u64) {
+                RunResult::HarnessError(e.clone())
+            } else {
+                match isolated.iter().find(|c| c.index == REGRESSION_BASE + ri as u64) {
+                    Some(Collected { violation: Some((v, n)), .. }) => RunResult::Violation(v.clone(), n.as_ref().and_then(|x| serde_json::from_value(x.clone()).ok())),
+                    _ => RunResult::Held,
                 }
-                None => RunResult::HarnessError("regression input was not executed".into()),
             }
         } else {
             execute_guarded(p, &case, &mut st)
@@ -850,66 +945,29 @@ pub fn batch_main<P: Prop>(p: &P, opts: &Options) -> i32 {
     let total = opts.runs_override.unwrap_or(plan.runs);
     let time_box = opts.time_override.or(plan.time_box_s);
     let deadline = time_box.map(|s| Instant::now() + Duration::from_secs(s));
-    let (mut results, _pulled) = match plan.isolation {
+    let (mut agg, n_done) = match plan.isolation {
         Isolation::Threads => run_threads(p, opts, total, deadline),
         Isolation::Children => run_children(p, opts, 0, total, deadline),
     };
-    results.sort_by_key(|c| c.index);
-    // keep the contiguous prefix only so that the reported set is "indices 0..n"
-    let mut n_done = 0u64;
-    for c in &results {
-        if c.index == n_done {
-            n_done += 1;
-        } else if c.index > n_done {
-            break;
-        }
+    if let Some((i, e)) = agg.harness_errors.first() {
+        eprintln!("HARNESS-ERROR property={id} run={i} {e}");
+        return 2;
     }
-    results.retain(|c| c.index < n_done);
-
-    let mut evaluations = 0u64;
-    let mut counters: BTreeMap<String, u64> = BTreeMap::new();
-    let mut maxima: BTreeMap<String, u64> = BTreeMap::new();
-    let mut fps: HashSet<u64> = HashSet::new();
-    let mut sets: BTreeMap<String, BTreeSet<u64>> = BTreeMap::new();
-    let mut sim_ops = 0u64;
-    let mut sim_bytes = 0u64;
-    let mut samples: Vec<Value> = Vec::new();
-    let mut digests: Vec<(u64, u64)> = Vec::new();
-    let mut violating: Vec<&Collected> = Vec::new();
-    for c in &results {
-        if let Some(e) = &c.harness_error {
-            eprintln!("HARNESS-ERROR property={id} run={} {e}", c.index);
-            return 2;
-        }
-        evaluations += c.stats.evaluations.max(1);
-        for (k, v) in &c.stats.counters {
-            *counters.entry(k.clone()).or_insert(0) += v;
-        }
-        for (k, v) in &c.stats.maxima {
-            let e = maxima.entry(k.clone()).or_insert(0);
-            if *v > *e {
-                *e = *v;
-            }
-        }
-        fps.extend(c.stats.fingerprints.iter().copied());
-        for (k, v) in &c.stats.known {
-            *known_hits.entry(k.clone()).or_insert(0) += v;
-        }
-        for (k, v) in &c.stats.sets {
-            sets.entry(k.clone()).or_default().extend(v.iter().copied());
-        }
-        sim_ops += c.stats.sim_ops;
-        sim_bytes += c.stats.sim_bytes;
-        if samples.len() < 3 {
-            if let Some(s) = &c.stats.sample {
-                samples.push(s.clone());
-            }
-        }
-        digests.push((c.index, c.stats.digest));
-        if c.violation.is_some() {
-            violating.push(c);
-        }
+    agg.violating.sort_by_key(|c| c.index);
+    agg.digests.sort();
+    let evaluations = agg.evaluations;
+    let mut counters = std::mem::take(&mut agg.counters);
+    let maxima = std::mem::take(&mut agg.maxima);
+    let fps = std::mem::take(&mut agg.fps);
+    let sets = std::mem::take(&mut agg.sets);
+    let sim_ops = agg.sim_ops;
+    let sim_bytes = agg.sim_bytes;
+    let mut samples: Vec<Value> = agg.samples.iter().map(|(_, v)| v.clone()).collect();
+    let digests = std::mem::take(&mut agg.digests);
+    for (k, v) in &agg.known {
+        *known_hits.entry(k.clone()).or_insert(0) += v;
     }
+    let violating: Vec<&Collected> = agg.violating.iter().collect();
 
     if let Some(path) = &opts.digests_out {
         let mut text = String::new();
@@ -1000,14 +1058,9 @@ pub fn batch_main<P: Prop>(p: &P, opts: &Options) -> i32 {
         }
     }
     if !violating.is_empty() {
-        let mut classes: BTreeMap<String, u64> = BTreeMap::new();
-        for c in &violating {
-            if let Some((v, _)) = &c.violation {
-                *classes.entry(v.class.clone()).or_insert(0) += 1;
-            }
-        }
-        println!("violation classes (incl. listed known findings): {classes:?}");
+        println!("violation classes (incl. listed known findings): {:?}", agg.class_counts);
     }
+    unlisted += agg.violating_dropped;
     for (fid, n) in &known_hits {
         if let Some((_, what)) = known.iter().find(|(k, _)| k == fid) {
             println!("KNOWN-FINDING: property={id} {fid}: {what} [{n} case(s) in this run]");
